@@ -126,8 +126,24 @@ def _mk_body(sname, scfg, rig: Rig):
                 o = op["op"]
                 if op.get("only_ty") and op["only_ty"] != ty:
                     continue
+                if op.get("only_k") is not None and int(getattr(ev, "k", 0)) != op["only_k"]:
+                    continue
                 if o == "gate":
-                    await rig.make_gate(key)
+                    if op.get("on_cancel_publish"):
+                        try:
+                            await rig.make_gate(key)
+                        except asyncio.CancelledError:
+                            # a step that reports on its way out (finally / except CancelledError)
+                            ctx.write_event_to_stream(E.TYPES[op["on_cancel_publish"]](uid="%s!cancel:%s" % (uid, sname)))
+                            await asyncio.sleep(0)
+                            raise
+                    else:
+                        await rig.make_gate(key)
+                elif o == "spin_publish":
+                    # an actively running step: writes to the stream on every loop turn
+                    for i in range(op.get("n", 5)):
+                        ctx.write_event_to_stream(E.TYPES[op["ty"]](uid="%s!%s%d" % (uid, sname, i)))
+                        await asyncio.sleep(0)
                 elif o == "send":
                     for i in range(op.get("n", 1)):
                         cls = E.TYPES[op["ty"]]
